@@ -282,3 +282,119 @@ def gen_heap_sites():
     if unguarded:
         raise ExtractError("allocating primitive(s) without a preceding capacity check: " + "; ".join(unguarded[:6]))
     return p
+
+
+# ---------------------------------------------------------------------------------------------------------
+# HeapEstimator: Heap::estimate_object_size as a table, one row per ObjectKind arm -- what the estimate of an
+# object of that kind depends on.  Heap::alloc adds the estimate an object has when it is allocated, Heap::sweep
+# subtracts the estimate it has when it dies: the two agree only when the estimate cannot change in between, or
+# when every change is added through Heap::account_growth.
+#   0  the estimate depends only on data that is fixed when the object is allocated
+#   1  it depends on state that changes, and every change goes through Heap::account_growth
+#   2  it depends on state that changes without accounting (or on something this table has not reviewed)
+# reviewed dependencies: (kind, access path after the binder)
+ESTIMATE_FIXED = {
+    ("String", ".len()"): "AelysString has no &mut self method: the bytes are fixed at allocation",
+    ("String", ".as_str().len()"): "same", ("String", ".as_bytes().len()"): "same",
+    ("Function", ".function.bytecode.len()"): "the code of a function object is never resized after allocation",
+    ("Function", ".function.constants.len()"): "constants are patched in place (remap after merge), never added or removed",
+    ("Closure", ".upvalues.len()"): "the upvalue vector is complete when the closure is allocated (no push / assignment in runtime/src)",
+    ("Array", ".size_bytes()"): "arrays have a fixed length: size_bytes is size_of::<Self>() + len * element size",
+}
+ESTIMATE_ACCOUNTED = {
+    ("Vec", ".size_bytes()"): "capacity only changes in VM::vec_reserve_checked, which adds the size_bytes difference through account_growth",
+}
+
+
+@extract.register("HeapEstimator")
+def gen_heap_estimator():
+    kt = strip_comments(rd("bytecode/src/object/kinds.rs"))
+    km = re.search(r"pub enum ObjectKind\s*\{(.*?)\}", kt, flags=re.S)
+    if not km:
+        raise ExtractError("enum ObjectKind not found in bytecode/src/object/kinds.rs")
+    kinds = re.findall(r"(\w+)\s*\(", km.group(1))
+    gt = strip_comments(rd("bytecode/src/heap/gc.rs"))
+    fm = re.search(r"fn estimate_object_size\s*\([^)]*\)\s*->\s*usize\s*\{(.*?)\n    \}", gt, flags=re.S)
+    if not fm:
+        raise ExtractError("Heap::estimate_object_size not found in bytecode/src/heap/gc.rs")
+    body = fm.group(1)
+    if re.search(r"\n\s*_\s*=>", body):
+        raise ExtractError("estimate_object_size has a wildcard arm: the table needs one arm per kind")
+    heads = list(re.finditer(r"ObjectKind::(\w+)\s*\(\s*(\w+)\s*\)\s*=>", body))
+    arms = {}
+    for i, h in enumerate(heads):
+        expr = body[h.end():heads[i + 1].start() if i + 1 < len(heads) else len(body)]
+        arms[h.group(1)] = (h.group(2), expr)
+    missing = [k for k in kinds if k not in arms]
+    if missing or len(arms) != len(kinds):
+        raise ExtractError(f"estimate_object_size: arms {sorted(arms)} do not match ObjectKind {kinds}")
+    # alloc adds / sweep subtracts the estimate
+    at = " ".join(strip_comments(rd("bytecode/src/heap/alloc.rs")).split())
+    if not re.search(r"self\.bytes_allocated \+= Self::estimate_object_size\(&obj\)", at):
+        raise ExtractError("Heap::alloc no longer adds estimate_object_size(&obj) to bytes_allocated")
+    gs = " ".join(gt.split()).replace(" .", ".")
+    if not re.search(r"self\.bytes_allocated = self\.bytes_allocated\.saturating_sub\(Self::estimate_object_size\(&obj\)\)", gs):
+        raise ExtractError("Heap::sweep no longer subtracts estimate_object_size(&obj) from bytes_allocated")
+    # supporting facts of the reviewed dependencies
+    def has_mut_self(rel, allowed=()):
+        t = strip_comments(rd(rel))
+        return [n for n in re.findall(r"fn\s+(\w+)\s*\(\s*&mut self", t) if n not in allowed]
+    support = {
+        "String": not has_mut_self("bytecode/src/object/string.rs"),
+        "Array": not has_mut_self("bytecode/src/object/array.rs", ("as_ints_mut", "as_floats_mut", "as_bools_mut", "as_objects_mut", "set", "fill")),
+        "Closure": True, "Function": True,
+    }
+    rt = ""
+    import os
+    for dp, _, fs in os.walk(os.path.join(extract.REPO, "runtime/src")):
+        for f in fs:
+            if f.endswith(".rs") or f.endswith(".inc"):
+                rt += strip_comments(open(os.path.join(dp, f), encoding="utf-8", errors="replace").read())
+    if re.search(r"\.upvalues\s*\.\s*(?:push|extend|insert|truncate|clear|pop)\s*\(|\.upvalues\s*=[^=]", rt):
+        support["Closure"] = False
+    if re.search(r"\.function\s*\.\s*(?:bytecode|constants)\s*\.\s*(?:push|extend|insert|truncate|clear|pop|resize)\s*\(", rt):
+        support["Function"] = False
+    al = strip_comments(rd("runtime/src/vm/alloc.rs"))
+    vb = re.search(r"fn vec_reserve_checked\b.*?\n    \}", al, flags=re.S)
+    vec_ok = False
+    if vb:
+        t = vb.group(0)
+        p1, p2, p3 = t.find(".size_bytes()"), t.find(".reserve_exact("), t.rfind(".size_bytes()")
+        vec_ok = 0 <= p1 < p2 < p3 and "account_growth(" in t[p3:]
+    # no other place changes the capacity of a vec object
+    for pat in (r"\.shrink_to_fit\s*\(", r"\.shrink_to\s*\("):
+        for m in re.finditer(pat, rt):
+            ctx = rt[max(0, m.start() - 200):m.start()]
+            if "ObjectKind::Vec" in ctx or "AelysVec" in ctx:
+                vec_ok = False
+    support["Vec"] = vec_ok
+    rows, deps_out = [], []
+    for idx, k in enumerate(kinds):
+        binder, expr = arms[k]
+        deps = []
+        if binder != "_":
+            for m in re.finditer(r"(?<![\w.])%s\b((?:\s*\.\s*\w+(?:\s*\(\s*\))?)*)" % re.escape(binder), expr):
+                deps.append(re.sub(r"\s+", "", m.group(1)) or "(itself)")
+        cls = 0
+        for d in deps:
+            if (k, d) in ESTIMATE_FIXED and support.get(k, False):
+                c = 0
+            elif (k, d) in ESTIMATE_ACCOUNTED and support.get(k, False):
+                c = 1
+            else:
+                c = 2
+            cls = max(cls, c)
+        rows.append((idx, k, cls))
+        deps_out.append((k, deps))
+    out = [HEADER.format(src="bytecode/src/heap/gc.rs (Heap::estimate_object_size, Heap::sweep), bytecode/src/heap/alloc.rs (Heap::alloc), "
+                             "bytecode/src/object/kinds.rs, runtime/src/vm/alloc.rs (vec_reserve_checked)"),
+           "From Coq Require Import String List NArith.\nImport ListNotations.\nLocal Open Scope string_scope.\n",
+           "(* Heap::alloc adds estimate_object_size of the new object, Heap::sweep subtracts estimate_object_size of the dead one.\n"
+           "   One row per arm of the estimator, in the order of enum ObjectKind: (index, kind, class)\n"
+           "   0 the estimate depends only on data fixed at allocation; 1 on state whose every change is added through\n"
+           "   Heap::account_growth; 2 on state that changes without accounting (or an access that has not been reviewed) *)\n",
+           "Definition estimator_arms : list (N * string * N) :=\n  [" + "; ".join('(%d%%N, "%s", %d%%N)' % r for r in rows) + "].\n",
+           "(* what each arm reads of the object *)\n",
+           "Definition estimator_reads : list (string * list string) :=\n  [" +
+           "; ".join('("%s", [%s])' % (k, "; ".join('"%s"' % d for d in ds)) for k, ds in deps_out) + "].\n"]
+    return write_if_changed("HeapEstimator.v", "".join(out))
